@@ -98,6 +98,12 @@ func (p Precompile) Run(evm *vm.EVM, contract *vm.Contract, readOnly bool) (bz [
 		return nil, err
 	}
 
+	// Run the method on a cached context: a call that fails after it has already
+	// changed Cosmos state must leave nothing behind, because the EVM only
+	// reverts its own journal for the failed call.
+	parentCtx := ctx
+	ctx, writeCache := parentCtx.CacheContext()
+
 	switch method.Name {
 	// TODO Approval transactions => need cosmos-sdk v0.46 & ibc-go v6.2.0
 	// Authorization Methods:
@@ -134,6 +140,8 @@ func (p Precompile) Run(evm *vm.EVM, contract *vm.Contract, readOnly bool) (bz [
 	if !contract.UseGas(cost) {
 		return nil, vm.ErrOutOfGas
 	}
+
+	writeCache()
 
 	return bz, nil
 }
